@@ -25,7 +25,7 @@ META = {
     ],
     "bounds": {
         "quick": "family F (incl. measurement-level overrides of auxdata/sigmas/factors, zero-uncertainty bins, lumi) + 24 seeded random shapes; batch None/2; all parameters, main and auxiliary data symbolic over R",
-        "thorough": "family F x batch None/1/2/3 + 200 seeded random shapes",
+        "thorough": "family F x batch None/1/2/3 + 500 seeded random shapes x batch None/1/2/3",
     },
     "stubs": ["log-density primitives uninterpreted"],
     "outside_claim": ["numerical values of the primitives (C04)", "other backends", "rounding"],
@@ -33,7 +33,7 @@ META = {
 
 
 def _family(tier, seed):
-    return shapes.family_core() + shapes.family_plus(seed, 24 if tier == "quick" else 200)
+    return shapes.family_core() + shapes.family_plus(seed, 24 if tier == "quick" else 500)
 
 
 def items(tier, seed):
